@@ -579,6 +579,14 @@ def _dump_entries(fa: FA):
                     entries.append(_Entry(k.arg, k.value, conditional, st, how))
                 else:
                     from_mapping(k.value, st, conditional, how)
+        elif isinstance(e, (ast.List, ast.Tuple)) and e.elts and all(isinstance(x, (ast.Tuple, ast.List)) and len(x.elts) == 2 for x in e.elts):
+            # a sequence of (key, value) pairs on its way into dict(...)
+            for x in e.elts:
+                if A.const_str(x.elts[0]) is not None:
+                    entries.append(_Entry(A.const_str(x.elts[0]), x.elts[1], conditional, st, how))
+        elif isinstance(e, ast.BinOp) and isinstance(e.op, (ast.Add, ast.BitOr)):
+            from_mapping(e.left, st, conditional, how)
+            from_mapping(e.right, st, conditional, how)
         elif isinstance(e, ast.DictComp) and len(e.generators) == 1 and isinstance(e.key, ast.Name):
             g = e.generators[0]
             it = g.iter
@@ -597,7 +605,7 @@ def _dump_entries(fa: FA):
             tg = st.targets if isinstance(st, ast.Assign) else [st.target]
             for t in tg:
                 if isinstance(t, ast.Name) and t.id in names:
-                    from_mapping(st.value if isinstance(st.value, (ast.Dict, ast.Call)) else expanded(st.value, st), st, cond(st), "literal")
+                    from_mapping(st.value if isinstance(st.value, (ast.Dict, ast.Call, ast.List, ast.Tuple)) else expanded(st.value, st), st, cond(st), "literal")
                 if isinstance(t, ast.Subscript) and isinstance(t.value, ast.Name) and t.value.id in names:
                     if A.const_str(t.slice) is not None:
                         entries.append(_Entry(A.const_str(t.slice), st.value, cond(st), st, "store"))
@@ -626,6 +634,13 @@ def _dump_entries(fa: FA):
                         entries.append(_Entry(k.arg, k.value, cond(st), st, "store"))
             elif c.func.attr == "setdefault" and c.args and A.const_str(c.args[0]) is not None:
                 entries.append(_Entry(A.const_str(c.args[0]), c.args[1] if len(c.args) > 1 else None, True, st, "store"))
+            elif c.func.attr in ("append", "insert") and c.args and not c.keywords:
+                # the returned dictionary is made of a list of (key, value) pairs
+                from_mapping(ast.List(elts=[expanded(c.args[-1], st)], ctx=ast.Load()), st, cond(st), "store")
+            elif c.func.attr == "extend" and len(c.args) == 1 and not c.keywords:
+                from_mapping(expanded(c.args[0], st), st, cond(st), "store")
+        elif isinstance(st, ast.AugAssign) and isinstance(st.target, ast.Name) and st.target.id in names and isinstance(st.op, (ast.Add, ast.BitOr)):
+            from_mapping(expanded(st.value, st), st, cond(st), "store")
     return entries
 
 
@@ -1076,6 +1091,533 @@ def _repo_order(ck, R4):
 
 
 # =====================================================================================================
+# R6: nested configured objects are dumped as the structural image of the field that holds them
+# =====================================================================================================
+_KEY, _VAL = "§key", "§value"  # one element of the source collection (not identifiers: cannot clash with a local)
+_COPY_WRAPPERS = ("dict", "deepcopy", "copy.deepcopy", "copy.copy", "OrderedDict")
+
+
+class _Image:
+    """A collection derived element by element from ONE collection field of the object: `key` / `val` are
+    expressions over the element's key (_KEY) and value (_VAL) in that field."""
+    __slots__ = ("src", "kind", "key", "val", "ordered", "total", "why")
+
+    def __init__(self, src, kind, key, val, ordered=True, total=True, why=None):
+        self.src, self.kind, self.key, self.val, self.ordered, self.total, self.why = src, kind, key, val, ordered, total, why
+
+    def but(self, **kw):
+        d = {s: getattr(self, s) for s in self.__slots__}
+        d.update(kw)
+        return _Image(**d)
+
+
+def _ph(name):
+    return ast.Name(id=name, ctx=ast.Load())
+
+
+def _pair(a, b):
+    return ast.Tuple(elts=[a, b], ctx=ast.Load())
+
+
+def _bind_target(tg, value, env):
+    """Bind a comprehension / loop target to the expression one element denotes (-> False when it cannot be bound)."""
+    if isinstance(tg, ast.Name):
+        env[tg.id] = value
+        return True
+    if isinstance(tg, (ast.Tuple, ast.List)) and isinstance(value, ast.Tuple) and len(tg.elts) == len(value.elts) \
+            and not any(isinstance(x, ast.Starred) for x in tg.elts):
+        return all(_bind_target(t, v, env) for t, v in zip(tg.elts, value.elts))
+    return False
+
+
+class _Srcs:
+    """The collections an image may be derived from: dotted field -> 'map' | 'seq', plus (optionally) a recogniser
+    `match(fa, expr, at) -> source text | None` for sources that are not a field (a section of the configuration)."""
+
+    def __init__(self, kinds, match=None, markers=()):
+        self.kinds, self.match = dict(kinds), match
+        # a branch literal that mentions one of these only asks whether the source is there / non-empty
+        self.markers = tuple(markers) or tuple(self.kinds)
+
+    def find(self, fa, e, at):
+        if isinstance(e, ast.Attribute) and A.dotted(e) in self.kinds:
+            return A.dotted(e)
+        if self.match is not None and isinstance(e, (ast.Call, ast.Subscript, ast.Name, ast.BoolOp, ast.IfExp)):
+            return self.match(fa, e, at)
+        return None
+
+
+def _presence_test(text, markers):
+    """Is a branch literal / test (normalised text) only the question whether a source is there / has elements?"""
+    text = text.strip()
+    while text.startswith("not "):
+        text = text[4:].strip()
+    for m in markers:
+        if text in (m, "len(%s)" % m, "bool(%s)" % m, "%s is None" % m, "%s is not None" % m, "len(%s) > 0" % m, "len(%s) == 0" % m, "0 == len(%s)" % m,
+                    "len(%s) != 0" % m, "0 < len(%s)" % m, "len(%s) >= 1" % m) or text.startswith(m + " in ") or text.startswith(m + " not in "):
+            return True
+    return False
+
+
+def _elem_expr(fa, e, at, env, src, srcs):
+    """An element expression of a comprehension / accumulating loop over the placeholders: bound variables replaced
+    by what they denote, other temporaries by their definition, `SRC[key]` / `SRC.get(key)` read as the element's
+    value, `(a, b)[i]` projected, casts dropped."""
+    class S(ast.NodeTransformer):
+        def visit_Name(self, n):
+            v = env.get(n.id)
+            return copy.deepcopy(v) if isinstance(v, ast.AST) and isinstance(n.ctx, ast.Load) else n
+
+    # bound variables first (they shadow locals of the same name), then temporaries, then the loop variables the
+    # temporaries were computed from
+    e = S().visit(copy.deepcopy(e))
+    try:
+        e = S().visit(fa.expand(e, at))
+    except AnalysisError:
+        pass
+
+    def is_src(x):
+        if any(isinstance(y, ast.Name) and y.id in (_KEY, _VAL) for y in ast.walk(x)):
+            return False
+        return srcs.find(fa, x, at) == src
+
+    class R(ast.NodeTransformer):
+        def visit_Subscript(self, n):
+            self.generic_visit(n)
+            if A.norm(n.slice) == _KEY and is_src(n.value):
+                return _ph(_VAL)
+            if isinstance(n.value, ast.Tuple) and isinstance(n.slice, ast.Constant) and isinstance(n.slice.value, int) \
+                    and -len(n.value.elts) <= n.slice.value < len(n.value.elts):
+                return n.value.elts[n.slice.value]
+            return n
+
+        def visit_Call(self, n):
+            self.generic_visit(n)
+            if A.call_attr(n) == "get" and len(n.args) == 1 and not n.keywords and A.norm(n.args[0]) == _KEY and is_src(A.call_recv(n)):
+                return _ph(_VAL)
+            if isinstance(n.func, ast.Name) and n.func.id == "cast" and len(n.args) == 2:
+                return n.args[1]
+            return n
+
+    return R().visit(e)
+
+
+def _strip_copies(e):
+    """`dict(x)` / `copy.deepcopy(x)` / `{**x}` / `x.copy()` -> x (a copy of a dump is the same dump)."""
+    while True:
+        if isinstance(e, ast.Call) and A.call_dotted(e) in _COPY_WRAPPERS and len(e.args) == 1 and not e.keywords:
+            e = e.args[0]
+        elif isinstance(e, ast.Call) and A.call_attr(e) == "copy" and not e.args and not e.keywords and A.call_recv(e) is not None:
+            e = A.call_recv(e)
+        elif isinstance(e, ast.Dict) and len(e.keys) == 1 and e.keys[0] is None:
+            e = e.values[0]
+        else:
+            return e
+
+
+_MUTATORS = ("append", "extend", "insert", "update", "setdefault", "pop", "popitem", "clear", "remove", "add", "sort", "reverse", "__setitem__", "__delitem__")
+
+
+def _content_mutations(fa, text):
+    """Statements that change the content of the object a local / field (`text`) is bound to: stores / deletes of its
+    items, calls of its mutating methods, augmented assignments."""
+    out = []
+    for st in fa.stmts():
+        if isinstance(st, ast.Assign) and any(isinstance(t, ast.Subscript) and A.norm(t.value) == text for t in st.targets):
+            out.append(st)
+        elif isinstance(st, ast.AugAssign) and (A.norm(st.target) == text or (isinstance(st.target, ast.Subscript) and A.norm(st.target.value) == text)):
+            out.append(st)
+        elif isinstance(st, ast.Delete) and any(isinstance(t, ast.Subscript) and A.norm(t.value) == text for t in st.targets):
+            out.append(st)
+        elif isinstance(st, ast.Expr) and isinstance(st.value, ast.Call) and isinstance(st.value.func, ast.Attribute) \
+                and A.norm(st.value.func.value) == text and st.value.func.attr in _MUTATORS:
+            out.append(st)
+    return out
+
+
+def _keyed(img, srcs):
+    """A mapping built from the elements of the source: unless it is keyed by the source's own (unique) keys, elements
+    that share a key collapse into one."""
+    if srcs.kinds.get(img.src) == "map" and A.norm(img.key) == _KEY:
+        return img
+    return img.but(total=False, why=img.why or "elements that share the key `%s` collapse into one" % A.norm(img.key).replace(_KEY, "<key>").replace(_VAL, "<element>"))
+
+
+def _is_empty_list(e):
+    return (isinstance(e, ast.List) and not e.elts) or (isinstance(e, ast.Call) and isinstance(e.func, ast.Name) and e.func.id == "list" and not e.args and not e.keywords)
+
+
+def _accumulated(fa, text, dstmt, dvalue, srcs, depth):
+    """`acc = {}` / `[]` (a local or a field, `text`) that is filled by ONE statement of ONE loop: the image the
+    comprehension spelt out by that loop denotes.  None when the filling has another shape."""
+    muts = _content_mutations(fa, text)
+    as_map, as_seq = _is_empty_dict(dvalue), _is_empty_list(dvalue)
+    if not (as_map or as_seq) or len(muts) != 1:
+        return None
+    m = muts[0]
+    loop = fa.enclosing(m, (ast.For, ast.While))
+    if not isinstance(loop, ast.For) or fa.enclosing(loop, (ast.For, ast.While)) is not None or loop.orelse:
+        return None
+    # the loop runs whenever the empty container was created — except under tests of the source itself (`if K in config`,
+    # `if self.x:`), under which skipping the loop leaves exactly the empty image
+    lc, dc = fa.conditions(loop), fa.conditions(dstmt)
+    if lc is None or dc is None:
+        return None
+    lc = {frozenset(l for l in c if not _presence_test(l[0], srcs.markers)) for c in lc}
+    if lc != dc:
+        return None
+    mid, hid, did = fa.nodes(m), fa.nodes(loop), fa.nodes(dstmt)
+    if not mid or not hid or not did:
+        return None
+    # the empty container is the one the loop fills (no other binding of the name / field in between)
+    ds = fa.df.reaching(mid[0], text)
+    if len(ds) != 1 or ds[0].node != did[0]:
+        return None
+    it = _image(fa, loop.iter, hid[0], {}, srcs, depth - 1)
+    if it is None:
+        return None
+    lenv = {}
+    if not _bind_target(loop.target, it.key if it.kind == "map" else it.val, lenv):
+        return None
+    inner = fa.enclosing(m, (ast.If, ast.Try, ast.With, ast.Match))
+    filtered = inner is not None and fa.inside(inner, loop)
+    jumps = any(isinstance(x, (ast.Break, ast.Continue, ast.Return, ast.Raise)) for x in A.walk_local(loop))
+    total = it.total and not filtered and not jumps
+    why = it.why or ("some elements are skipped (`%s` is not executed for every element)" % A.short(m, 40) if filtered or jumps else None)
+    ex = lambda x: _elem_expr(fa, x, mid[0], lenv, it.src, srcs)
+    if isinstance(m, ast.Assign) and len(m.targets) == 1 and isinstance(m.targets[0], ast.Subscript) and as_map:
+        return _keyed(_Image(it.src, "map", ex(m.targets[0].slice), ex(m.value), it.ordered, total, why), srcs)
+    if isinstance(m, ast.Expr):
+        c = m.value
+        if c.func.attr == "append" and len(c.args) == 1 and not c.keywords and as_seq:
+            return _Image(it.src, "seq", None, ex(c.args[0]), it.ordered, total, why)
+        if c.func.attr in ("__setitem__", "setdefault") and len(c.args) == 2 and as_map:
+            return _keyed(_Image(it.src, "map", ex(c.args[0]), ex(c.args[1]), it.ordered, total, why), srcs)
+        if c.func.attr == "update" and len(c.args) == 1 and not c.keywords and isinstance(c.args[0], ast.Dict) and len(c.args[0].keys) == 1 \
+                and c.args[0].keys[0] is not None and as_map:
+            return _keyed(_Image(it.src, "map", ex(c.args[0].keys[0]), ex(c.args[0].values[0]), it.ordered, total, why), srcs)
+    return None
+
+
+def _image(fa, e, at, env, srcs, depth=8):
+    """The _Image an expression (evaluated at CFG node `at`) denotes; None when it is not one this evaluator
+    understands.  `env`: comprehension variables -> expression over the placeholders."""
+    if e is None or depth <= 0:
+        return None
+    rec = lambda x: _image(fa, x, at, env, srcs, depth - 1)
+    as_seq = lambda x: x if x.kind == "seq" else x.but(kind="seq", key=None, val=x.key)
+    if not (isinstance(e, ast.Name) and e.id in env):
+        s = srcs.find(fa, e, at)
+        if s is not None:
+            return _Image(s, srcs.kinds[s], _ph(_KEY), _ph(_VAL))
+    if isinstance(e, ast.Name):
+        if e.id in env:
+            return None
+        ds = fa.df.reaching(at, e.id)
+        if len(ds) != 1 or ds[0].kind != "assign" or ds[0].value is None:
+            return None
+        d = ds[0]
+        if not _content_mutations(fa, e.id):
+            return _image(fa, d.value, d.node, {}, srcs, depth - 1)
+        return _accumulated(fa, e.id, d.stmt if d.stmt is not None else d.node, d.value, srcs, depth) if d.stmt is not None else None
+    if isinstance(e, (ast.ListComp, ast.GeneratorExp, ast.SetComp, ast.DictComp)):
+        if len(e.generators) != 1 or e.generators[0].is_async:
+            return None
+        g = e.generators[0]
+        it = rec(g.iter)
+        if it is None:
+            return None
+        cenv = dict(env)
+        if not _bind_target(g.target, it.key if it.kind == "map" else it.val, cenv):
+            return None
+        total = it.total and not g.ifs
+        why = it.why or ("elements are filtered by `%s`" % A.short(g.ifs[0], 40) if g.ifs else None)
+        ex = lambda x: _elem_expr(fa, x, at, cenv, it.src, srcs)
+        if isinstance(e, ast.DictComp):
+            return _keyed(_Image(it.src, "map", ex(e.key), ex(e.value), it.ordered, total, why), srcs)
+        ordered = it.ordered and not isinstance(e, ast.SetComp)
+        return _Image(it.src, "seq", None, ex(e.elt), ordered, total, why if ordered or why else "a set has no order")
+    if isinstance(e, ast.IfExp) or (isinstance(e, ast.BoolOp) and isinstance(e.op, ast.Or) and len(e.values) == 2):
+        # `IMAGE if <the source is there> else {}` / `IMAGE or {}`: without elements the image is the empty container anyway
+        a_, b_ = (e.body, e.orelse) if isinstance(e, ast.IfExp) else e.values
+        empty = lambda x: _is_empty_dict(x) or _is_empty_list(x) or (isinstance(x, ast.Tuple) and not x.elts)
+        about_src = isinstance(e, ast.BoolOp) or _presence_test(A.norm(e.test), srcs.markers)
+        if about_src and empty(b_):
+            return rec(a_)
+        if about_src and empty(a_) and isinstance(e, ast.IfExp):
+            return rec(b_)
+        return None
+    if isinstance(e, ast.Subscript) and isinstance(e.slice, ast.Slice):
+        x = rec(e.value)
+        if x is None or x.kind != "seq":
+            return None
+        if e.slice.lower is None and e.slice.upper is None and e.slice.step is None:
+            return x
+        return x.but(total=False, why=x.why or "only the slice `%s` of it is taken" % A.short(e, 40))
+    if isinstance(e, ast.Dict) and len(e.keys) == 1 and e.keys[0] is None:
+        x = rec(e.values[0])
+        return x if x is not None and x.kind == "map" else None
+    if isinstance(e, (ast.List, ast.Tuple)) and len(e.elts) == 1 and isinstance(e.elts[0], ast.Starred):
+        x = rec(e.elts[0].value)
+        return None if x is None else as_seq(x)
+    if isinstance(e, ast.Call):
+        f = e.func
+        if isinstance(f, ast.Attribute) and not e.args and not e.keywords:
+            x = rec(f.value)
+            if x is None:
+                return None
+            if f.attr == "copy":
+                return x
+            if x.kind == "map" and f.attr == "items":
+                return x.but(kind="seq", key=None, val=_pair(x.key, x.val))
+            if x.kind == "map" and f.attr == "values":
+                return x.but(kind="seq", key=None)
+            if x.kind == "map" and f.attr == "keys":
+                return x.but(kind="seq", key=None, val=x.key)
+            return None
+        name = A.call_dotted(e)
+        if name in ("list", "tuple", "iter") and len(e.args) == 1 and not e.keywords:
+            x = rec(e.args[0])
+            return None if x is None else as_seq(x)
+        if name in ("sorted", "reversed", "set", "frozenset") and len(e.args) == 1:
+            x = rec(e.args[0])
+            if x is None:
+                return None
+            return as_seq(x).but(ordered=False, why=x.why or "`%s(...)` does not keep the order of %s" % (name, x.src))
+        if name in ("dict", "OrderedDict") and len(e.args) == 1 and not e.keywords:
+            x = rec(e.args[0])
+            if x is None:
+                return None
+            if x.kind == "map":
+                return x
+            if isinstance(x.val, ast.Tuple) and len(x.val.elts) == 2:
+                return _keyed(x.but(kind="map", key=x.val.elts[0], val=x.val.elts[1]), srcs)
+            return None
+        if name == "zip" and len(e.args) == 2 and not e.keywords:
+            a_, b_ = rec(e.args[0]), rec(e.args[1])
+            if a_ is None or b_ is None or a_.src != b_.src:
+                return None
+            a_, b_ = as_seq(a_), as_seq(b_)
+            if not (a_.ordered and b_.ordered):
+                return None
+            return _Image(a_.src, "seq", None, _pair(a_.val, b_.val), True, a_.total and b_.total, a_.why or b_.why)
+    return None
+
+
+def _field_shape(ck, cls, init_fa, field):
+    """How a field holds objects that dump themselves: ('one' | 'map' | 'seq', element class) or None.  From the
+    declared type of the field, else the annotation of the constructor parameter that is stored in it."""
+    texts = [ck.repo.field_type(cls, field)]
+    for s in init_fa.stmts(ast.Assign):
+        if any(A.dotted(t) == "self." + field for t in s.targets):
+            for b in _branches(s.value):
+                if isinstance(b, ast.Name) and b.id in init_fa.fi.params:
+                    texts.append(init_fa.fi.param_annotation(b.id))
+    for t in texts:
+        if not t:
+            continue
+        t = t.strip().strip("'\"")
+        m = re.match(r"^(?:typing\.)?Optional\[(.*)\]$", t)
+        if m:
+            t = m.group(1).strip()
+        shape, inner = "one", t
+        m = re.match(r"^(?:typing\.)?(Dict|dict|Mapping|MutableMapping|OrderedDict)\[(.*)\]$", t)
+        if m:
+            shape, inner = "map", ck.cg._subscript_type_text(t)
+        else:
+            m = re.match(r"^(?:typing\.)?(List|list|Sequence|Tuple|tuple)\[(.*)\]$", t)
+            if m:
+                shape, inner = "seq", m.group(2).split(",")[0].strip()
+        ec = ck.cg.class_of_typename(inner, cls) if inner else None
+        if ec is None or ec == "builtin":
+            continue
+        if ck.repo.find_method(ec, "to_dict") is not None:
+            return shape, ec
+    return None
+
+
+def _raw_entry_value(en):
+    """The value expression of a dump entry as written (the entry table may carry an expanded copy)."""
+    v = getattr(en.stmt, "value", None)
+    if isinstance(v, ast.Dict):
+        for k, x in zip(v.keys, v.values):
+            if k is not None and A.const_str(k) == en.key:
+                return x
+    return en.value
+
+
+def check_nested_dumps(ck, R, reads_of):
+    """A cluster / repository / environment holds other configured objects (its storage and runner, its clusters
+    by registration key, its repositories in priority order).  The environment rebuilt from a dump resolves names
+    through exactly these containers, so the dump must be their structural image: a single object as its own
+    to_dict(); a map with the SAME keys, each value the to_dict() of the object registered under that key; a list
+    in the SAME order, each element the to_dict() of the object at that position, nothing skipped."""
+    cfgm = ck.repo.module("configuration")
+    n = 0
+    for clsname in ("FunctionCluster", "ConfigurationRepository", "Environment"):
+        cls = cfgm.classes[clsname]
+        init = FA(ck, cls.methods["__init__"])
+        td = FA(ck, cls.methods["to_dict"])
+        entries = _dump_entries(td)
+        fields = set()
+        for s in init.stmts(ast.Assign):
+            for t in s.targets:
+                d = A.dotted(t) or ""
+                if d.startswith("self.") and d.count(".") == 1 and any(isinstance(b, ast.Name) and b.id in init.fi.params and b.id != "self" for b in _branches(s.value)):
+                    fields.add(d[5:])
+        for field in sorted(fields):
+            shape = _field_shape(ck, cls, init, field)
+            if shape is None:
+                continue
+            kind, ec = shape
+            src = "self." + field
+            srcs = _Srcs({src: kind})
+            n += 1
+            # the configuration key(s) the constructor fills the field from
+            keys_in = set()
+            for s in init.stmts((ast.Assign, ast.Expr)):
+                tgt = []
+                if isinstance(s, ast.Assign):
+                    tgt = [t.value if isinstance(t, ast.Subscript) else t for t in s.targets]
+                    val = s.value
+                elif isinstance(s.value, ast.Call) and A.call_attr(s.value) in ("append", "update", "setdefault", "extend", "insert"):
+                    tgt = [A.call_recv(s.value)]
+                    val = s.value
+                if not any(A.dotted(t) == src for t in tgt) or not init.nodes(s):
+                    continue
+                try:
+                    atoms = init.deps(val, init.nodes(s)[0])
+                except AnalysisError:
+                    continue
+                keys_in |= {k for k in reads_of[clsname] if ("const:%r" % k) in atoms}
+            mine = []
+            for en in entries:
+                ids = td.nodes(en.stmt)
+                v = _raw_entry_value(en)
+                if v is None or not ids:
+                    continue
+                try:
+                    derived = any(a == "attr:" + src or a.startswith("attr:" + src + ".") for a in td.deps(v, ids[0]))
+                except AnalysisError:
+                    derived = any(A.dotted(x) == src for x in ast.walk(v))
+                if derived or any(_image(td, x, ids[0], {}, srcs) is not None for x in ast.walk(v) if isinstance(x, ast.Name)):
+                    mine.append((en, v, ids[0]))
+            key = "%s::nested-dump::%s" % (cls.qual, field)
+            what = {"one": "the %s object" % ec.name, "map": "the %s objects by registration key" % ec.name, "seq": "the %s objects in order" % ec.name}[kind]
+            if not mine:
+                ck.ob(R, key, False, "%s holds %s but to_dict writes nothing derived from it: the rebuilt object does not contain them" % (src, what), td.where())
+                continue
+            why = None
+            at_stmt = mine[0][0].stmt
+            for (en, v, at) in mine:
+                if why:
+                    break
+                at_stmt = en.stmt
+                if keys_in and en.key not in keys_in:
+                    why = "%s is dumped under %r while the constructor fills it from %s" % (src, en.key, sorted(keys_in))
+                    break
+                if en.conditional:
+                    conds = td.conditions(en.stmt)
+                    if conds is None or any(not _presence_test(t, srcs.markers) for c in conds for (t, _p) in c):
+                        why = "the entry %r is only written under a condition that is not about %s" % (en.key, src)
+                        break
+                if kind == "one":
+                    if A.norm(_strip_copies(_elem_expr(td, v, at, {}, src, srcs))) != "%s.to_dict()" % src:
+                        why = "the entry %r is `%s`, not %s.to_dict()" % (en.key, A.short(v, 50), src)
+                    continue
+                img = _image(td, v, at, {}, srcs)
+                if img is None:
+                    raise AnalysisError("%s.to_dict: the entry %r (`%s`) is derived from %s in a way this rule cannot decide" % (cls.qual, en.key, A.short(v, 60), src))
+                show = lambda x: A.norm(x).replace(_KEY, "<key>").replace(_VAL, "<%s>" % ec.name)
+                if img.kind != kind:
+                    why = "the entry %r is a %s, %s is a %s" % (en.key, {"map": "mapping", "seq": "sequence"}[img.kind], src, {"map": "mapping", "seq": "sequence"}[kind])
+                elif kind == "map" and A.norm(img.key) != _KEY:
+                    why = "the entry %r is keyed by `%s`, not by the key each %s is registered under in %s: a name that resolved before the dump " \
+                          "resolves to nothing (or to a lower-priority repository) after rebuilding whenever the two differ" % (en.key, show(img.key), ec.name, src)
+                elif not img.total:
+                    why = "the entry %r does not contain every element of %s: %s" % (en.key, src, img.why or "elements are skipped")
+                elif kind == "seq" and not img.ordered:
+                    why = "the entry %r does not keep the order of %s (%s): the priority order of the rebuilt object differs" % (en.key, src, img.why or "reordered")
+                elif A.norm(_strip_copies(img.val)) != "%s.to_dict()" % _VAL:
+                    why = "the entry %r holds `%s` for each element, not the element's own to_dict()" % (en.key, show(img.val))
+            ck.ob(R, key, why is None, "%s (%s) is dumped as its structural image" % (src, what) if why is None else
+                  "to_dict does not dump %s (%s) as its structural image: %s" % (src, what, why), td.where(at_stmt))
+            if kind == "map" and len(keys_in) == 1:
+                _nested_load(ck, R, cls, init, field, ec, next(iter(keys_in)))
+    ck.need(n >= 4, "nested-dump rule: only %d fields holding configured objects recognised" % n)
+
+
+def _section_reader(key):
+    """Recogniser for `<configuration>.get(key[, {}])` / `<configuration>[key]` / `... or {}` (through temporaries)."""
+    src = "config[%r]" % key
+
+    def match(fa, e, at):
+        try:
+            x = fa.expand(e, at)
+        except AnalysisError:
+            x = e
+        x = _strip_default(x)
+        if isinstance(x, ast.IfExp) and (_is_empty_dict(x.orelse) or _is_empty_dict(x.body)):
+            x = x.body if _is_empty_dict(x.orelse) else x.orelse
+        k = recv = None
+        if isinstance(x, ast.Call) and A.call_attr(x) == "get" and x.args and (len(x.args) == 1 or _is_empty_dict(x.args[1]) or A.is_none(x.args[1])):
+            k, recv = A.const_str(x.args[0]), A.call_recv(x)
+        elif isinstance(x, ast.Subscript) and not isinstance(x.slice, ast.Slice):
+            k, recv = A.const_str(x.slice), x.value
+        if k != key or recv is None:
+            return None
+        return src if A.norm(_strip_default(recv)) in ("config", "self.config") else None
+
+    return src, match
+
+
+def _nested_load(ck, R, cls, init, field, ec, cfg_key):
+    """The mirror of the dump clause on the reading side: the constructor registers one object per entry of the
+    configured section, under the key the entry has there (that key is the name get_cluster resolves), built from
+    the configuration given for that key."""
+    src, match = _section_reader(cfg_key)
+    srcs = _Srcs({src: "map"}, match, markers=(repr(cfg_key),))
+    tgt = "self." + field
+    why = None
+    where = init.where()
+    n_img = 0
+    for s in init.stmts(ast.Assign):
+        if not any(A.dotted(t) == tgt for t in s.targets) or not init.nodes(s):
+            continue
+        at = init.nodes(s)[0]
+        for b in _branches(s.value):
+            if why or (isinstance(b, ast.Name) and b.id in init.fi.params) or A.is_none(b):
+                continue
+            if (_is_empty_dict(b) and _content_mutations(init, tgt)):
+                img = _accumulated(init, tgt, s, b, srcs, 8)
+            else:
+                img = _image(init, b, at, {}, srcs)
+            if img is None:
+                if _is_empty_dict(b) and not _content_mutations(init, tgt):
+                    continue
+                raise AnalysisError("%s: `%s` fills %s from the configuration in a way this rule cannot decide" % (init.qual, A.short(s, 60), tgt))
+            n_img += 1
+            where = init.where(s)
+            show = lambda x: A.norm(x).replace(_KEY, "<key>").replace(_VAL, "<section of that key>")
+            v = img.val
+            if img.kind != "map":
+                why = "`%s` is not a mapping" % A.short(s, 50)
+            elif A.norm(img.key) != _KEY:
+                why = "each %s is registered under `%s`, not under the key it has in the %r section of the configuration: the configured name " \
+                      "does not resolve (get_cluster looks names up by registration key), and a rebuilt environment differs from the dumped one" \
+                      % (ec.name, show(img.key), cfg_key)
+            elif not img.total:
+                why = "not every entry of the %r section is registered: %s" % (cfg_key, img.why or "entries are skipped")
+            elif not (isinstance(v, ast.Call) and A.call_dotted(v) == ec.name and any(isinstance(x, ast.Name) and x.id == _VAL for a_ in v.args + [k.value for k in v.keywords] for x in ast.walk(a_))):
+                why = "the object registered under a key is `%s`, not a %s built from the configuration given for that key" % (show(v), ec.name)
+    if not why and not n_img:
+        why = "no statement fills %s from the %r section of the configuration" % (tgt, cfg_key)
+    ck.ob(R, "%s::nested-load::%s" % (cls.qual, field), why is None,
+          "%s registers one %s per entry of the configured %r section, under the entry's key" % (tgt, ec.name, cfg_key) if why is None else
+          "the constructor does not rebuild %s as the image of the configured %r section: %s" % (tgt, cfg_key, why), where)
+
+
+# =====================================================================================================
 def check(ck):
     from .memo import check_new_memo_tables
     ck.run(check_new_memo_tables, ck, "C18.M1", ('configuration', 'storage', 'storage_filesystem', 'storage_memory'))
@@ -1234,14 +1776,19 @@ def check(ck):
         sbi.xnorm((mc[0].args + [k.value for k in mc[0].keywords])[0], sbi.nodes(mc[0])[0]) == "memory_cache_mb"
     ck.ob(R1, sbi.key(None, "cache-size"), okm, "the cache is created with the configured size" if okm else "MemoryCache is not created with memory_cache_mb", sbi.where())
     # ---- R1 for cluster / repository / environment
+    reads_of = {}
     for clsname in ("FunctionCluster", "ConfigurationRepository", "Environment"):
         cls = cfgm.classes[clsname]
         reads = _config_reads(ck, cls, membership=True)
+        reads_of[clsname] = reads
         td = FA(ck, cls.methods["to_dict"])
         dumped = {e.key for e in _dump_entries(td)}
         ok = reads == dumped
         ck.ob(R1, cls.qual + "::read-equals-dumped", ok, "%s reads and dumps the same keys %s" % (clsname, sorted(reads)) if ok else
               "%s reads %s from its configuration but dumps %s" % (clsname, sorted(reads - dumped) or "{}", sorted(dumped - reads) or "{}"), td.where())
+    ck.rule("C18.R6", "nested configured objects (storage / runner of a cluster, clusters of a repository by registration key, repositories of an "
+                      "environment in priority order) are dumped as the structural image of the field that holds them", 4)
+    ck.run(check_nested_dumps, ck, "C18.R6", reads_of)
     # ---- R2 precedence
     n2 = 0
     for q in ("configuration.FunctionCluster.__init__", "configuration.ConfigurationRepository.__init__", "configuration.Environment.__init__",
